@@ -25,8 +25,8 @@ CLAIMS = {
  "C11": ("Bounded model checking of the duplicate-detection kernel: for all records the tag is the ciphertext prefix, tag serde is the identity, and shard routing is in range for all tags and all shard counts. The cross-shard exchange and HashSet validator are NOT claimed.",
          TRUST + "Outside: async reshard_aad, Query::execute ordering, SipHash-based set.",
          "Kani/CBMC proof harnesses over symbolic tags, records and shard counts"),
- "C12": ("Bounded model checking of the integer, structural and validator parts: (a) noise sample -> share mapping equals (sample - shift) mod 2^width for every support point (incl. -1) at widths 8/16/32; (b) the real rejection sampler returns exactly the first draw shift+G1-G2 that lies in 0..=2*shift (both edges included, negative draws not clamped) for every outcome of its first 6 Bernoulli trials and every shift <= 10^6; (c) the parameter constructors accept exactly the documented ranges (non-NaN). The numeric (epsilon, delta) law - trial probability, truncation point minimality, achieved delta - is NOT claimed.",
-         TRUST + "Share-mapping harnesses replace the sampler by its contract (arbitrary value of the support); sampler harnesses script the RNG (first 6 trials arbitrary, later ones succeed); find_smallest_n stubbed; libm / probabilities outside.",
+ "C12": ("Bounded model checking of the integer, structural and validator parts: (a) noise sample -> share mapping equals (sample - shift) mod 2^width for every support point (incl. -1) at widths 8/16/32; (b) the real rejection sampler returns exactly the first draw shift+G1-G2 that lies in 0..=2*shift (both edges included, negative draws not clamped) for every outcome of its first 6 Bernoulli trials and every shift <= 10^6; (c) the truncation-point search returns the smallest n >= sensitivity whose tail mass (an arbitrary function of n in the harness) is <= delta; (d) the parameter constructors accept exactly the documented ranges (non-NaN). The numeric (epsilon, delta) law - trial probability, tail-mass formula, achieved delta - is NOT claimed.",
+         TRUST + "Share-mapping harnesses replace the sampler by its contract (arbitrary value of the support); sampler harnesses script the RNG (first 6 trials arbitrary, later ones succeed); find_smallest_n stubbed in the validator harness, right_hand_side stubbed (symbolic table) in the search harness; libm / probabilities outside.",
          "Kani/CBMC proof harnesses: contract stubs for the sampler in the mapping harnesses, scripted-RNG symbolic execution of the real sampler"),
 }
 PENDING = {
